@@ -118,7 +118,77 @@ func genericFindings(u *Unit) []genFinding {
 	out = append(out, findHeaderAfterStatus(u)...)
 	out = append(out, findShadowedObserved(u)...)
 	out = append(out, findIncompleteMemo(u)...)
+	out = append(out, findKindSwitchGaps(u)...)
+	out = append(out, findUncheckedCacheGet(u)...)
 	sort.Slice(out, func(i, j int) bool { return out[i].pos+out[i].rule < out[j].pos+out[j].rule })
+	return out
+}
+
+// ---- R-KIND-SWITCH-COMPLETE: a switch over the method kind that names the static stream kinds
+// (producer, exchange) also names the dynamic stream kind (or is written on methodTypeString).
+
+func findKindSwitchGaps(u *Unit) []genFinding {
+	var out []genFinding
+	dyn, _ := u.ConstValue("MethodDynamic")
+	for _, file := range u.Root.Syntax {
+		for _, d := range file.Decls {
+			fd, ok := d.(*ast.FuncDecl)
+			if !ok || fd.Body == nil {
+				continue
+			}
+			for _, sw := range u.Switches(fd) {
+				if !strings.HasSuffix(sw.Tag, ".Type") {
+					continue
+				}
+				has := map[string]bool{}
+				for _, cs := range sw.Cases {
+					has[cs] = true
+				}
+				pv, _ := u.ConstValue("MethodProducer")
+				xv, _ := u.ConstValue("MethodExchange")
+				static := has["MethodProducer"] || has["MethodExchange"] || (pv != "" && has[pv]) || (xv != "" && has[xv])
+				dynamic := has["MethodDynamic"] || (dyn != "" && has[dyn])
+				if static && !dynamic && !sw.Default {
+					out = append(out, genFinding{"R-KIND-SWITCH-COMPLETE", declKey(fd) + "|switch " + sw.Tag, u.Pos(sw.Node.Pos()),
+						declKey(fd) + " switches on the method kind with cases for the static stream kinds but none for MethodDynamic (and no default): a dynamic stream method falls through untreated (its input stream is not drained / its refusal is not framed like the other stream kinds)"})
+				}
+			}
+		}
+	}
+	return out
+}
+
+// ---- R-CACHE-GET-NIL-CHECKED: the call-state cache answers nil on a miss; a field of its
+// answer is read only under a non-nil test.
+
+func findUncheckedCacheGet(u *Unit) []genFinding {
+	var out []genFinding
+	for _, top := range u.SrcFuncs() {
+		for _, f := range WithAnon(top) {
+			for _, cs := range u.Calls(f, Is("(*callStateCache).get")) {
+				call, ok := cs.Instr.(*ssa.Call)
+				if !ok {
+					continue
+				}
+				for _, ref := range *call.Referrers() {
+					fa, isFA := ref.(*ssa.FieldAddr)
+					if !isFA {
+						continue
+					}
+					checked := false
+					for _, g := range GuardsAt(fa.Block()) {
+						if x, isNil, ok := nilCompare(g); ok && !isNil && x == ssa.Value(call) {
+							checked = true
+						}
+					}
+					if !checked {
+						out = append(out, genFinding{"R-CACHE-GET-NIL-CHECKED", shortName(top) + "|callStates.get", u.Pos(fa.Pos()),
+							shortName(top) + " reads a field of callStateCache.get's answer without testing it for nil: on a cache miss (another instance, an eviction, a disabled cache) the handler panics before it has answered"})
+					}
+				}
+			}
+		}
+	}
 	return out
 }
 
